@@ -146,7 +146,6 @@ def rcls(lay, L):
 # C01
 # =================================================================================================================
 def c01_eval(R, case, count=True):
-    import nfc.tag
     from vf.sim import t4t
     lay, L, mseed = case["lay"], case["L"], case.get("mseed", 0)
     ns = ns_of(lay)
@@ -410,7 +409,7 @@ def c02_eval(R, case, count=True):
 def plan_c02(tier):
     if tier == "quick":
         return [{"n": 130}, {"n": 130}, {"n": 130}]
-    return [{"n": 1800, "timeout": 1500} for _ in range(6)]
+    return [{"n": 3500, "timeout": 1500} for _ in range(6)]
 
 
 def run_c02(desc, R, rng):
@@ -448,7 +447,6 @@ GUARD = 16
 def c03_eval(R, case, count=True):
     from vf.sim import t4t
     lay = dict(case["lay"], decoy=True)
-    ns = ns_of(lay)
     prev = content(case["mseed"] + 1, case.get("prev_len", 0))
     lay["tail"] = content(case["mseed"] + 2, 64)
     card = t4t.make_card(lay, prev, guard=GUARD)
@@ -498,7 +496,7 @@ def c03_eval(R, case, count=True):
 def plan_c03(tier):
     if tier == "quick":
         return [{"n": 900}, {"n": 900}, {"n": 900}]
-    return [{"n": 12000, "timeout": 1500} for _ in range(6)]
+    return [{"n": 40000, "timeout": 1500} for _ in range(6)]
 
 
 def run_c03(desc, R, rng):
@@ -665,7 +663,7 @@ def c08_eval(R, case, count=True):
                 nd3 = tag.ndef
                 if nd3 is not None and nd3.length > nd3.capacity:
                     bad("length>capacity", "after has_changed: length %d > capacity %d" % (nd3.length, nd3.capacity))
-    except SimTagDevice.Bound as e:
+    except SimTagDevice.Bound:
         last = [b for b in devbox[-24:] if b]
         if last and all(b[0] & 0xF6 == 0xF2 for b in last):
             loop = "swtx-loop"
